@@ -63,7 +63,7 @@ def build(claimed):
         "engines": [{"name": "sim", "path": "/verif/sim", "serves_properties": sorted(claimed),
                      "kind_free_text": "hand-written deterministic simulator: seeded client/operation/fault scheduler over real ExactPack objects, fork-per-run from a pristine image, differential fresh-process reference, ddmin shrinker, explicit replay files"}],
         "checks": checks,
-        "notes": "Deterministic simulation with fault injection only. 18 of 20 properties are pure functions of their inputs and are listed not_applicable with reasons (DESIGN.md §0). No hook was needed in /repo (all seams are patched from outside at run time); /repo carries six unguarded 'fix:' commits for genuine defects the checks found (DESIGN.md §9.3, /verif/known_findings.json), and one recorded known finding (C06, ie_Solver). Self-tests: python -m sim.selftest determinism|calibration|fixed|oracle|mutants. Sensitivity sets: /verif/mutants (hand-written), /verif/seeded (independent sub-agents).",
+        "notes": "Deterministic simulation with fault injection only. 18 of 20 properties are pure functions of their inputs and are listed not_applicable with reasons (DESIGN.md §0). No hook was needed in /repo (all seams are patched from outside at run time); /repo carries seven unguarded 'fix:' commits for genuine defects the checks found (DESIGN.md §9.3, /verif/known_findings.json), and one recorded known finding (C06, ie_Solver). Self-tests: python -m sim.selftest determinism|calibration|fixed|oracle|mutants. Sensitivity sets: /verif/mutants (hand-written), /verif/seeded (independent sub-agents).",
         "not_applicable": [{"property_id": k, "reason": v} for k, v in sorted(NA.items())]
             + [{"property_id": k, "reason": "claimed in DESIGN.md; check under construction, not yet registered"} for k in ("C05", "C06") if k not in claimed],
     }
